@@ -1708,6 +1708,8 @@ sexp sexp_quotient (sexp ctx, sexp a, sexp b) {
   sexp r=SEXP_VOID;
   sexp_gc_var1(tmp);
   if (b == SEXP_ONE) return a;
+  if (b == SEXP_ZERO)
+    return sexp_xtype_exception(ctx, NULL, "divide by zero", a);
   sexp_gc_preserve1(ctx, tmp);
   switch ((at * SEXP_NUM_NUMBER_TYPES) + bt) {
   case SEXP_NUM_NOT_NOT: case SEXP_NUM_NOT_FIX:
@@ -1786,6 +1788,8 @@ sexp sexp_remainder (sexp ctx, sexp a, sexp b) {
   sexp r=SEXP_VOID;
   sexp_gc_var1(tmp);
   if (b == SEXP_ONE) return SEXP_ZERO;
+  if (b == SEXP_ZERO)
+    return sexp_xtype_exception(ctx, NULL, "divide by zero", a);
   sexp_gc_preserve1(ctx, tmp);
   switch ((at * SEXP_NUM_NUMBER_TYPES) + bt) {
   case SEXP_NUM_NOT_NOT: case SEXP_NUM_NOT_FIX:
